@@ -22,7 +22,7 @@ import (
 func init() { register("c02", c02) }
 
 type c02Op struct {
-	K int `json:"k"` // 0 Lookup(b,t) 1 Apply(h,k) 2 Stub(h) 3 Origin(h,ph) 4 Cancel(h) 5 Reset(b)
+	K int `json:"k"` // 0 Lookup(b,t) 1 Apply(h,k) 2 Stub(h) 3 Origin(h,ph) 4 Cancel(h) 5 Reset(b) 6 rejected Apply(h, ill-formed callback b)
 	A int `json:"a"`
 	B int `json:"b"`
 }
@@ -232,8 +232,15 @@ func c02(args []string) int {
 				if !tgts[htgt[op.A]].plain {
 					op = c02Op{K: 2, A: op.A}
 				}
-			case k < 18:
+			case k < 17:
 				op = c02Op{K: 4, A: rng.Intn(len(handles))}
+			case k < 18:
+				// a re-apply goom must refuse (callback of the wrong shape): only through the exported-function / method handles,
+				// whose Apply checks the signature before the patch layer is reached
+				op = c02Op{K: 6, A: live[rng.Intn(len(live))], B: rng.Intn(3)}
+				if htgt[op.A] >= 5 {
+					op = c02Op{K: 4, A: op.A}
+				}
 			default:
 				op = c02Op{K: 5, A: rng.Intn(nb)}
 			}
@@ -276,6 +283,15 @@ func c02(args []string) int {
 					handles[op.A].Cancel()
 				case 5:
 					builders[op.A].Reset()
+				case 6:
+					switch op.B {
+					case 0:
+						handles[op.A].Apply(func() {})
+					case 1:
+						handles[op.A].Apply(func(a, b, c, d int) (int, int) { return 0, 0 })
+					default:
+						handles[op.A].Apply(42)
+					}
 				}
 			}()
 			ops = append(ops, op)
